@@ -29,7 +29,8 @@ META = {
                   'and --force) and with generated -D/-U sets (default, --force, small/large --max-configs).',
     'level_note': 'Only the family named in the statement is generated; coverage is asserted only without -D and with '
                   'enough --max-configs (or --force); the finding site is assumed to be reported whenever its region '
-                  'is analysed (checked: the all-defined/none-defined control runs report it).',
+                  'is analysed (it is a definite arrayIndexOutOfBounds; every region of every generated skeleton reported it in '
+                  'the coverage runs on the unchanged tree).',
     'design_ref': 'DESIGN.md §3 C12',
 }
 
@@ -252,5 +253,5 @@ def run(ctx):
     ctx.assumptions.append('generator exclusions in force: %s' % (
         sorted(k for k, v in condgen.EXCL.items() if not v[0]) or 'none'))
     replay_known(ctx)
-    n = ctx.n(160, 10000)
+    n = ctx.n(160, 5000)
     pmap(lambda i: _case(ctx, i), range(n), workers=6)
